@@ -7,6 +7,8 @@ pub mod c03;
 pub mod c04;
 pub mod c05;
 pub mod c06;
+pub mod c07;
+pub mod c09;
 pub mod c10;
 pub mod c11;
 pub mod c12;
@@ -35,6 +37,8 @@ pub fn all() -> Vec<Prop> {
         Prop { id: "C04", level: "exploration", case: c04::case, run: c04::run, replay_reps: 4 },
         Prop { id: "C05", level: "exploration", case: c05::case, run: c05::run, replay_reps: 8 },
         Prop { id: "C06", level: "exploration", case: c06::case, run: c06::run, replay_reps: 4 },
+        Prop { id: "C07", level: "exploration", case: c07::case, run: c07::run, replay_reps: 4 },
+        Prop { id: "C09", level: "exploration", case: c09::case, run: c09::run, replay_reps: 4 },
         Prop { id: "C10", level: "exploration", case: c10::case, run: c10::run, replay_reps: 4 },
         Prop { id: "C11", level: "exploration", case: c11::case, run: c11::run, replay_reps: 16 },
         Prop { id: "C12", level: "exploration", case: c12::case, run: c12::run, replay_reps: 16 },
